@@ -33,7 +33,9 @@ BUILTINS_CALLED = ["type", "setattr", "hasattr", "globals", "locals", "iter", "n
 IDS = ["_", "__", "k", "v", "self", "it", "itertools", "importlib"] + BUILTINS_CALLED + \
       ["___", "_k", "ol_x", "__olx", "__ol_k", "__ol", "__ol_itertools", "super", "getattr", "print", "len", "dict",
        # names the symbol table gives to implicit scopes (hosts before 3.12 recognise them by name)
-       "listcomp", "genexpr", "setcomp", "dictcomp", "lambda_", "top"]
+       "listcomp", "genexpr", "setcomp", "dictcomp", "lambda_", "top",
+       # plausible names of parameters of helper lambdas
+       "bases", "kwds", "name", "ns", "args", "kwargs", "value", "obj", "loader", "cls", "meta"]
 # identifiers starting with the reserved prefix are outside the property ("not starting with __ol_")
 RESERVED = [i for i in IDS if i.startswith("__ol_")]
 
@@ -94,6 +96,14 @@ ROLES = {
     "lambdastar": "def R0():\n    {N} = 41\n    def cap0():\n        nonlocal {N}\n        {N} += 1\n    cap0()\n    h0 = lambda *a1, **{N}: sorted({N})\n    i0 = lambda *{N}: len({N})\n{FI}    return {N}, h0(zz=1), i0(1, 2), c0\nprint(R0())\n",
     # a global declaration three function levels below a local of the same name
     "globalbelow": "{N} = 41\ndef R0():\n    {N} = 7\n    def mid0():\n        def in0():\n            global {N}\n            return {N}\n        return in0()\n    return mid0(), {N}\n{F}print(R0(), {N}, c0)\n",
+    # the identifier is the NAME OF A CLASS KEYWORD (consumed by __init_subclass__), next to a metaclass
+    "classkeyword": "class B9:\n    def __init_subclass__(c9, **kw9):\n        c9.kw9 = sorted(kw9.items())\nclass M9(type):\n    pass\nclass Q0(B9, metaclass=M9, {N}=41):\n    pass\nclass Q1(B9, {N}=42):\n    pass\n{F}print(Q0.kw9, Q1.kw9, c0)\n",
+    # ... a local that exists only because of an import, three levels above a global declaration
+    "globalbelow_import": "{N} = 41\ndef R0():\n    import string as {N}\n    def mid0():\n        def in0():\n            global {N}\n            return {N}\n        return in0()\n    return mid0(), {N}.digits\n{F}print(R0(), {N}, c0)\n",
+    # ... a variable of a lambda bound by a walrus inside a comprehension, next to a captured variable of that spelling
+    "lambdawalruscomp": "def R0():\n    {N} = 41\n    def cap0():\n        nonlocal {N}\n        {N} += 1\n    cap0()\n    h0 = lambda s1: ([({N} := v1) for v1 in s1], {N})[1]\n{FI}    return {N}, h0([7, 8]), {N}, c0\nprint(R0())\n",
+    # ... the target AND the first iterable of a comprehension, while captured / a class attribute
+    "compsamename": "def R0():\n    {N} = [1, 2]\n    def cap0():\n        nonlocal {N}\n        {N} = {N} + [3]\n    cap0()\n    r1 = [{N} * 2 for {N} in {N}]\n{FI}    return {N}, r1, c0\nprint(R0())\nclass Q0:\n    {N} = [4]\n    r2 = [{N} for {N} in {N}]\nprint(Q0.r2)\n",
     # the identifier names a function that has parameters and holds a comprehension
     "funcwithcomp": "def {N}(a1, b1=2):\n    return [e1 + a1 for e1 in range(b1)]\n{F}print({N}(1), c0)\n",
 }
@@ -115,12 +125,15 @@ def cell_excluded(ident, role, feat, switches):
         used = set(FEATURE_BUILTINS[feat])
         # the role's own binding statement is lowered too
         used |= set({"classname": ["type", "setattr"], "importalias": ["__import__"],
-                     "globalbelow": ["globals"], "lambdastar": ["hasattr"]}.get(role, []))
+                     "globalbelow": ["globals"], "lambdastar": ["hasattr"], "classkeyword": ["type", "setattr", "classmethod"],
+                     "globalbelow_import": ["globals", "__import__"], "lambdawalruscomp": ["hasattr"],
+                     "compsamename": ["type", "setattr"]}.get(role, []))
         if role == "classattr":
             return None   # a class attribute does not shadow a builtin for the generated code
         if ident in used:
             return "user-binds-builtin-called-by-lowering"
-    if "private-name-mangling" in switches and role == "classattr" and ident.startswith("__") and not ident.endswith("__"):
+    if "private-name-mangling" in switches and role in ("classattr", "compsamename") \
+            and ident.startswith("__") and not ident.endswith("__"):
         return "private-name-mangling"
     return None
 
@@ -209,7 +222,7 @@ def check_cell(part, ident, role, feat, cfgs):
     src = cell_source(ident, role, feat)
     try:
         compile(src, "<cell>", "exec")
-    except SyntaxError:
+    except (SyntaxError, SystemError):    # SystemError: CPython's own compiler trips over `super` as a comprehension target in a class
         part["discarded"]["cell-not-valid-python"] += 1
         return
     o = run_code(src, "exec")
@@ -359,7 +372,7 @@ def run(report):
             src = cell_source(n, r, f)
             try:
                 compile(src, "<cell>", "exec")
-            except SyntaxError:
+            except (SyntaxError, SystemError):
                 continue
             cases.append((src, [env.ALL_CFGS[k % 8]]))
     for h in others:
